@@ -26,7 +26,7 @@ def check(an, rep, tier):
         'reproduction, best-approximation property of the factor products.')
     rep.assumptions = pre('PRE-D', 'PRE-DOC')
     rep.trusted = ['orthogonality axioms of numpy.linalg.svd / eigh']
-    ds = (2, 3) if tier == 'quick' else (2, 3, 4)
+    ds = (2, 3) if tier == 'quick' else (2, 3, 4, 5)
     wh = {'utils._reshape', 'svd.svd', 'svd.svd_matrix', 'svd.matrix_svd', 'svd.matrix_skeleton',
           'transformation.full_matrix', 'transformation.full'}
     runs = sweep(an, rep, ['svd.svd', 'svd.svd_matrix', 'svd.matrix_skeleton',
